@@ -9,6 +9,11 @@ import (
 )
 
 func (rn *runner) sweepReq(epName, api, user, plan, method, cid, suffix string, body *N, mp bool, tag string) int {
+	return rn.modelledReq(epName, api, user, plan, method, cid, suffix, body, mp, "boundary:"+tag, true)
+}
+
+// modelledReq sends one request of known shape through judge with its `h` line for the model
+func (rn *runner) modelledReq(epName, api, user, plan, method, cid, suffix string, body *N, mp bool, tag string, undo bool) int {
 	path := "/" + api + "/collections"
 	if cid != "" {
 		path += "/" + cid
@@ -44,8 +49,8 @@ func (rn *runner) sweepReq(epName, api, user, plan, method, cid, suffix string, 
 	}
 	hline := "h " + epName + " plan=" + itoa(pn[0]) + "," + itoa(pn[1]) + "," + itoa(pn[2]) + " ncols=" + itoa(len(rn.w.cols[user])) + " exists=" + itoa(exists) +
 		" cid=" + itoa(len(cid)) + " found=" + itoa(found) + " count=" + itoa(int(count)) + " ; " + schemaT + " ; " + tokens
-	st := rn.judge(req, epName, ctype, "boundary:"+tag, "", key, hline)
-	if st >= 200 && st < 300 && method != "GET" && !strings.HasSuffix(suffix, "/search") {
+	st := rn.judge(req, epName, ctype, tag, "", key, hline)
+	if undo && st >= 200 && st < 300 && method != "GET" && !strings.HasSuffix(suffix, "/search") {
 		// undo: the sweep must not drift the state
 		switch {
 		case strings.HasSuffix(epName, "Create"):
